@@ -35,6 +35,7 @@ type c18Case struct {
 	Warmup   int    `json:"warmup"`   // the same Parser value first parses this many other streams (the first with an error), drained to Done
 	Err      int    `json:"err"`      // failing-reader: index into c10Errors
 	Skip     int    `json:"skip"`     // seekable: permille of the text already consumed by the caller before parsing
+	BOM      bool   `json:"bom"`      // the text starts with a UTF-8 byte order mark (both parsers must treat it alike)
 }
 
 func (c c18Case) config() parser.Config {
@@ -118,6 +119,10 @@ func checkC18(c c18Case, ctx *vCtx) *vFailure {
 		}
 		ctx.Labelf("long-line=%d", c.LongLine)
 	}
+	if c.BOM {
+		text = "\xef\xbb\xbf" + text
+		ctx.Label("bom")
+	}
 	cfg := c.config()
 	ctx.Labelf("config=%d", c.Comment)
 	if len(text) > 4096 {
@@ -145,6 +150,24 @@ func checkC18(c c18Case, ctx *vCtx) *vFailure {
 	if c.Input == "file" || c.Input == "fifo" {
 		filePath = vWriteFile("c18-input.yaml", text)
 	}
+	if c.Input == "dash-file" || c.Input == "dash-missing" {
+		// a file whose name is "-" (or no such file): ParseFile takes names literally, like ParseFileCallback
+		dir := filepath.Join(vScratchDir(), "c18-dash-"+c.Input)
+		_ = os.RemoveAll(dir)
+		if err := os.MkdirAll(dir, 0o755); err != nil {
+			vFault("mkdir: %v", err)
+		}
+		if c.Input == "dash-file" {
+			if err := os.WriteFile(filepath.Join(dir, "-"), []byte(text), 0o644); err != nil {
+				vFault("write: %v", err)
+			}
+		}
+		old, _ := os.Getwd()
+		if err := os.Chdir(dir); err != nil {
+			vFault("chdir: %v", err)
+		}
+		defer os.Chdir(old)
+	}
 	closedPath := ""
 	if c.Input == "closed-file" {
 		closedPath = vWriteFile("c18-closed.yaml", text)
@@ -164,6 +187,14 @@ func checkC18(c c18Case, ctx *vCtx) *vFailure {
 		switch c.Input {
 		case "missing-file":
 			err = parser.ParseFileCallback(missing, cfg, func(n *shared.ParserNode, e error) (bool, error) { return e != nil, e })
+		case "dash-file", "dash-missing":
+			err = parser.ParseFileCallback("-", cfg, func(n *shared.ParserNode, e error) (bool, error) {
+				if e != nil {
+					return true, e
+				}
+				recs = append(recs, vGotFromNode(n))
+				return false, nil
+			})
 		case "closed-file":
 			f, e := os.Open(closedPath)
 			if e != nil {
@@ -266,6 +297,8 @@ func checkC18(c c18Case, ctx *vCtx) *vFailure {
 		switch c.Input {
 		case "missing-file":
 			p.ParseFile(missing)
+		case "dash-file", "dash-missing":
+			p.ParseFile("-")
 		case "fifo":
 			p.ParseFile(fifoPath)
 		case "file":
@@ -435,7 +468,7 @@ func genC18(t *rapid.T) c18Case {
 		case kind == 7:
 			c.Input = "missing-file"
 		default:
-			c.Input = []string{"file", "file", "fifo"}[rapid.IntRange(0, 2).Draw(t, "filekind")]
+			c.Input = []string{"file", "file", "fifo", "dash-file", "dash-missing"}[rapid.IntRange(0, 4).Draw(t, "filekind")]
 			if rapid.Bool().Draw(t, "bad") {
 				c09Plant(t, &d, 1, pool, "plant")
 			}
@@ -444,6 +477,7 @@ func genC18(t *rapid.T) c18Case {
 	c.Doc = d
 	c.Comment = []int{0, 0, 0, 1, 2}[rapid.IntRange(0, 4).Draw(t, "config")]
 	c.Warmup = []int{0, 0, 0, 1, 2}[rapid.IntRange(0, 4).Draw(t, "warmup")]
+	c.BOM = rapid.IntRange(0, 9).Draw(t, "bom") == 0
 	if rapid.IntRange(0, 9).Draw(t, "longline") == 0 {
 		c.LongLine = []int{4096, 8192, 65535, 65536, 70000, 100000, 140000}[rapid.IntRange(0, 6).Draw(t, "longlinen")]
 	}
